@@ -216,6 +216,22 @@ func isPrefix(a, b []int) bool {
 	return true
 }
 
+// S-STREAMLONG: one subscriber stops reading a very long stream (more values than any fixed
+// buffer anyone would put in front of it); the other subscription and an ordinary call on the
+// same connection must not notice. One execution per base schedule (bound 0): the length, not
+// the interleaving, is the dimension here.
+func init() {
+	Register(&Scenario{
+		Name:     "streamlong",
+		Property: "C07",
+		Cfg:      vsched.Config{Horizon: 10 * time.Second, MaxSteps: 40000000},
+		Params: func(tier string) []Param {
+			return []Param{{Name: "k2-l20000,3-stalled0", Bound: 0, V: map[string]int{"k": 2, "l0": 20000, "l1": 3, "mode": 2}}}
+		},
+		Body: streamBody,
+	})
+}
+
 func init() {
 	Register(&Scenario{
 		Name:     "stream",
